@@ -822,6 +822,17 @@ def norm_cond(n, pol=True):
     return ("!=" if pol else "==", expr_text(n), "0")
 
 
+def effective_cond(n):
+    """The terminator condition clang reports for `if (A && B)` in the block that evaluates B is the whole
+    `A && B`; on that block's edges its value is B's (A is already decided), so use the rightmost operand."""
+    while True:
+        m = strip(n)
+        if m is not None and m.get("k") == "BinaryOperator" and m.get("op") in ("&&", "||"):
+            n = m["c"][1]
+        else:
+            return n
+
+
 def _cfg_guards(self, b):
     """conditions that hold whenever block b executes: list of dicts
        {cond: node, pol: bool} for two-way branches, {cond: node, cases: [labels]} for switches.
@@ -839,6 +850,8 @@ def _cfg_guards(self, b):
         cond = nodes.get(blk["cond"])
         if cond is None:
             continue
+        if blk.get("tk") != "SwitchStmt":
+            cond = effective_cond(cond)
         if blk.get("tk") == "SwitchStmt":
             ok_labels, all_reach = [], True
             for s in ss:
@@ -934,3 +947,83 @@ def global_value(tu, name, func=None):
     if "val" in g:
         return g["val"]
     return init_value(g.get("init"))
+
+
+# --------------------------------------------------------------------------- flow-insensitive origins (def-use)
+def local_defs(fn):
+    """local variable / parameter decl id -> list of rhs nodes assigned to it anywhere in fn (incl. initialisers,
+    compound assignments (both operands count) and ++/--)"""
+    if getattr(fn, "_defs", None) is not None:
+        return fn._defs
+    defs = {}
+    for n in fn.walk():
+        k = n.get("k")
+        if k == "DeclStmt":
+            for v in kids(n):
+                if v.get("k") == "Var" and kids(v):
+                    defs.setdefault(v["d"], []).append(kids(v)[0])
+        elif k == "BinaryOperator" and n.get("op") == "=":
+            l = strip(n["c"][0])
+            if l is not None and l.get("k") == "DeclRefExpr":
+                defs.setdefault(l["d"], []).append(n["c"][1])
+        elif k == "CompoundAssignOperator":
+            l = strip(n["c"][0])
+            if l is not None and l.get("k") == "DeclRefExpr":
+                defs.setdefault(l["d"], []).append(n["c"][1])
+    fn._defs = defs
+    return defs
+
+
+def origins(fn, expr, depth=0, seen=None, through_calls=True):
+    """set of origin tokens an expression's value may depend on (flow-insensitive over local variables):
+       ('g', name) global/static object, ('p', name) parameter, ('call', name) result of a call,
+       ('m', member) a member read from something non-local, ('c', value) constant, ('idx', arrayname) element load"""
+    out = set()
+    if seen is None:
+        seen = set()
+    defs = local_defs(fn)
+    stack = [expr]
+    while stack:
+        n = stack.pop()
+        n = strip(n)
+        if n is None:
+            continue
+        k = n.get("k")
+        if "v" in n and k != "DeclRefExpr":
+            out.add(("c", n["v"]))
+            if k in ("IntegerLiteral", "CharacterLiteral", "UnaryExprOrTypeTraitExpr"):
+                continue
+        if k == "DeclRefExpr":
+            dk = n.get("dk")
+            if dk == "gvar":
+                out.add(("g", n["n"]))
+            elif dk == "enum":
+                out.add(("c", n.get("v")))
+            elif dk in ("var", "parm"):
+                if dk == "parm":
+                    out.add(("p", n["n"]))
+                if n["d"] not in seen:
+                    seen.add(n["d"])
+                    for r in defs.get(n["d"], []):
+                        stack.append(r)
+            continue
+        if k == "CallExpr":
+            out.add(("call", n.get("callee") or "?"))
+            if through_calls:
+                for a in call_args(n):
+                    stack.append(a)
+            continue
+        if k == "MemberExpr":
+            out.add(("m", n.get("n")))
+            stack.append(n["c"][0])
+            continue
+        if k == "ArraySubscriptExpr":
+            b = strip(n["c"][0])
+            if b is not None and b.get("k") == "DeclRefExpr":
+                out.add(("idx", b["n"]))
+            stack.append(n["c"][0])
+            stack.append(n["c"][1])
+            continue
+        for c in kids(n):
+            stack.append(c)
+    return out
